@@ -138,6 +138,18 @@ class Mean2D(Mean1D):
   pools = VECTORS
 
 
+MIXED = [[[1, 2], [3, 4], [0.5, 6.5], [7.25, 9.0]], [[0.5, 1.0], [3, 4], [5, 6], [7.5, 9.5]]]      # integer rows and float rows
+
+
+class Mean2DMixed(Mean1D):
+  """Batches whose dtype follows their rows (all-integer batches next to float ones)."""
+  name = 'Mean/2d-int-then-float'
+  pools = MIXED
+
+  def batch_args(self, rows):
+    return (np.array(rows),)
+
+
 class MeanVar1D(_Col):
   name = 'MeanAndVariance/1d'
   pools = SCALARS
@@ -153,6 +165,14 @@ class MeanVar1D(_Col):
 class MeanVar2D(MeanVar1D):
   name = 'MeanAndVariance/2d'
   pools = VECTORS
+
+
+class MeanVar2DMixed(MeanVar1D):
+  name = 'MeanAndVariance/2d-int-then-float'
+  pools = MIXED
+
+  def batch_args(self, rows):
+    return (np.array(rows),)
 
 
 class Var1D(_Col):
@@ -327,6 +347,15 @@ class RRegMulti(Adapter):
 
   def batch_args(self, rows):
     return (np.array([r[0] for r in rows], dtype=float), np.array([r[1] for r in rows], dtype=float))
+
+
+class RRegMultiMixed(RRegMulti):
+  """Integer rows and float rows: a batch / shard of integers followed by one of floats (dtypes follow the data)."""
+  name = 'RRegression/multi-output-int-then-float'
+  pools = [[((1, 4), 2), ((2, 3), 3), ((0.5, 1.5), 0.5), ((2.5, 0.5), 1.5)], [((0.5, 1.5), 0.5), ((1, 4), 2), ((2.5, 0.5), 1.5), ((2, 3), 3)]]
+
+  def batch_args(self, rows):
+    return (np.array([r[0] for r in rows]), np.array([r[1] for r in rows]))
 
 
 class SPD(_XY):
@@ -708,9 +737,9 @@ def all_adapters():
 
 
 def _direct_adapters():
-  return [Mean1D(), Mean2D(), MeanVar1D(), MeanVar2D(), Var1D(), Hist(), HistEdges(), CounterA(), MinMax(), ValueAcc(),
+  return [Mean1D(), Mean2D(), Mean2DMixed(), MeanVar1D(), MeanVar2D(), MeanVar2DMixed(), Var1D(), Hist(), HistEdges(), CounterA(), MinMax(), ValueAcc(),
           ValueAccMetric(), Unbounded(), UnboundedSingle(), Reservoir(), Reservoir3(), R2(), R2Rel(), RReg(), RRegNC(),
-          RRegMulti(), SPD(), MeanStateA(), MeanStateArr(), TupleMean(), NGrams(), NGrams2(), NGramsFirst(), Patterns(),
+          RRegMulti(), RRegMultiMixed(), SPD(), MeanStateA(), MeanStateArr(), TupleMean(), NGrams(), NGrams2(), NGramsFirst(), Patterns(),
           PatternsNoDup(), CMBinary(), CMBinaryStr(), CMMultiMicro(), CMMultiMacro(), CMMultiOut(), CMIndicator(), CMTopK(),
           ClassificationAgg(), Samplewise(), SamplewiseIndicator(), CalibHist(), TopKRet(), TopKRet1(), TopKRet13(),
           TopKRet135(), TopKRetMulticlass(), Thresholded()]
